@@ -239,10 +239,7 @@ def nested_pairs(o):
 # Genuine defects of the UNCHANGED code found by this check and reported to the lead with a fix patch; until the fix is
 # committed (or a known_findings.json entry exists) findings with these keys are printed as PENDING-DEFECT and do not
 # fail the check.  REMOVE the entry once fixes/c02/fix-docker-scan-ignores-proxy-env.patch is applied.
-PENDING_DEFECTS = {
-    "e2e:appenv:docker:proxy-env": "sx docker honours HTTP_PROXY / HTTPS_PROXY / ALL_PROXY (moby ConfigureTransport): every probe "
-                                   "connects to the proxy instead of the target (fix: fixes/c02/fix-docker-scan-ignores-proxy-env.patch)",
-}
+PENDING_DEFECTS = {}      # (the docker proxy-environment defect was repaired by fix e830a21)
 
 
 def judge_e2e(o):
